@@ -6,6 +6,7 @@ import (
 	"strconv"
 
 	"github.com/dave/dst"
+	"github.com/dave/dst/dstutil"
 )
 
 // ---- C02 L1: rendering is translation invariant -----------------------------------------------------
@@ -41,6 +42,17 @@ func vfPerType_C02(typ string) {
 		vfAssert(vfPosShifted(r1.comments[i], r2.comments[i], delta), "translated/comments")
 	}
 	vfAssert(vfPosShifted(a1, a2, delta), "translated/ast")
+}
+
+// C02 L1b: duplication. The documented way to place an element twice is Clone; the duplicate must carry
+// every field, spacing value and decoration of the original (deep equality, all flags, token kinds and
+// spacing values symbolic), so that by L1 it renders as the original does.
+func vfPerType_C02Dup(typ string) {
+	g := &vfGen{prefix: "n", depth: 1, listLen: 2, decPoint: "*", spaces: true, symFlags: true, symToks: true}
+	n := g.Node(typ)
+	c := dst.Clone(n)
+	vfReach("cloned")
+	vfAssert(vfDeepEqual(n, c), "duplicate-equals-original")
 }
 
 // ---- C02 L2 + edits: chunks travel with their element -----------------------------------------------
@@ -573,3 +585,398 @@ func VerifC02Fields()   { vfC02(vfFieldList(false)) }
 func VerifC02Methods()  { vfC02(vfFieldList(true)) }
 func VerifC02Decls()    { vfC02(vfDeclList()) }
 func VerifC02Clauses()  { vfC02(vfClauseList()) }
+
+// ---- C02 L3: hanging comments of clause lists -----------------------------------------------------------
+//
+// A comment written in the body of a case / comm clause (one indent deeper than the `case` line, after
+// the body's statements or in an empty body) belongs to that clause and not to the clause that follows.
+// Layout (columns symbolic, body = case column + 1 as gofmt writes it):
+//
+//	switch x {            select {
+//	case a:               case <-a:
+//	    sa                    sa            (body: empty or one statement)
+//	    // hang a             // hang a
+//	                                        (optional blank line)
+//	// above b            // above b
+//	case b:               case <-b:
+//
+// The real link()/decorateNode must store "hang k" inside clause k's subtree and "above k" in clause k's
+// Start; after a permute / delete / move / duplicate edit the real restoreNode renders each hanging
+// comment on a line of its own between its clause's last token and the next clause (or the closing brace).
+func VerifC02Hanging() {
+	comm := vfChoice("select", 2) == 1
+	// 0 all empty, 1 all one statement, 2 first and last empty, middle one statement (quick: only that)
+	bodies := 2
+	if vfTier() > 0 {
+		bodies = vfChoice("bodies", 3)
+	}
+	body := &dst.BlockStmt{}
+	names := []string{"a", "b", "c"}
+	var bodyStmts []dst.Stmt
+	for k, p := range names {
+		var b []dst.Stmt
+		if bodies == 1 || (bodies == 2 && k == 1) {
+			s := &dst.ExprStmt{X: &dst.CallExpr{Fun: vfIdent("s" + p)}}
+			b = []dst.Stmt{s}
+			bodyStmts = append(bodyStmts, s)
+		}
+		if comm {
+			body.List = append(body.List, &dst.CommClause{Comm: &dst.ExprStmt{X: &dst.UnaryExpr{Op: token.ARROW, X: vfIdent(p)}}, Body: b})
+		} else {
+			body.List = append(body.List, &dst.CaseClause{List: []dst.Expr{vfIdent(p)}, Body: b})
+		}
+	}
+	var root dst.Node
+	if comm {
+		root = &dst.SelectStmt{Body: body}
+	} else {
+		root = &dst.SwitchStmt{Tag: vfIdent("x"), Body: body}
+	}
+	elems := make([]dst.Node, len(body.List))
+	for i, s := range body.List {
+		elems[i] = s
+	}
+
+	r0 := vfRestorerMid()
+	vfAssume(r0.cursor != r0.cursorAtNewLine)
+	an := r0.restoreNode(root, "", "", "", false)
+	fd := NewDecorator(nil).newFileDecorator()
+	fd.addNodeFragments(an)
+
+	caseCol := vfInt("caseColumn", 1, 40)
+	bodyCol := caseCol + 1
+	hang := make([]string, len(elems))
+	above := make([]string, len(elems))
+	blank := make([]bool, len(elems))
+	for k := range elems {
+		tag := "e" + strconv.Itoa(k)
+		if vfTier() > 0 || k < 2 {
+			if vfChoice(tag+".hang", 2) == 1 {
+				hang[k] = vfOpaque(tag+".h", "//H"+names[k])
+			}
+		}
+		if k == 1 || (vfTier() > 0 && k == 2) {
+			if vfChoice(tag+".above", 2) == 1 {
+				above[k] = vfOpaque(tag+".a", "//A"+names[k])
+			}
+			blank[k] = vfChoice(tag+".blank", 2) == 1
+		}
+	}
+	startIdx := func(n ast.Node) int {
+		for i, f := range fd.fragments {
+			if df, ok := f.(*decorationFragment); ok && df.Node == n && df.Name == "Start" {
+				return i
+			}
+		}
+		return -1
+	}
+	insertAt := func(idx int, ins []fragment) {
+		out := append([]fragment{}, fd.fragments[:idx]...)
+		out = append(out, ins...)
+		fd.fragments = append(out, fd.fragments[idx:]...)
+	}
+	// behind the last clause: line break, hanging comment line, then the closing brace
+	{
+		last := r0.Ast.Nodes[elems[len(elems)-1]]
+		idx := -1
+		for i, f := range fd.fragments {
+			if df, ok := f.(*decorationFragment); ok && df.Node == last && df.Name == "End" {
+				idx = i + 1
+			}
+		}
+		ins := []fragment{&newlineFragment{}}
+		if h := hang[len(elems)-1]; h != "" {
+			ins = append(ins, &commentFragment{Text: h, Indent: bodyCol}, &newlineFragment{})
+		}
+		insertAt(idx, ins)
+	}
+	bodyLine := map[ast.Node]bool{}
+	for k := len(elems) - 1; k >= 0; k-- {
+		// the body statement goes on its own line
+		switch c := elems[k].(type) {
+		case *dst.CaseClause:
+			for _, s := range c.Body {
+				as := r0.Ast.Nodes[s]
+				bodyLine[as] = true
+				insertAt(startIdx(as), []fragment{&newlineFragment{}})
+			}
+		case *dst.CommClause:
+			for _, s := range c.Body {
+				as := r0.Ast.Nodes[s]
+				bodyLine[as] = true
+				insertAt(startIdx(as), []fragment{&newlineFragment{}})
+			}
+		}
+		idx := startIdx(r0.Ast.Nodes[elems[k]])
+		vfAssert(idx >= 0, "element-has-start-point")
+		if idx < 0 {
+			return
+		}
+		var ins []fragment
+		if k == 0 {
+			ins = append(ins, &newlineFragment{}) // after the opening brace
+		} else {
+			if h := hang[k-1]; h != "" {
+				ins = append(ins, &newlineFragment{}, &commentFragment{Text: h, Indent: bodyCol}, &newlineFragment{Empty: blank[k]})
+			} else {
+				ins = append(ins, &newlineFragment{Empty: blank[k]})
+			}
+			if a := above[k]; a != "" {
+				ins = append(ins, &commentFragment{Text: a, Indent: caseCol}, &newlineFragment{})
+			}
+		}
+		insertAt(idx, ins)
+	}
+	// columns of the decoration points: the line's first fragment decides
+	cur := caseCol
+	for i, frag := range fd.fragments {
+		if i > 0 && fd.fragments[i-1].Newline() {
+			cur = caseCol
+			switch f := frag.(type) {
+			case *commentFragment:
+				cur = f.Indent
+			case *decorationFragment:
+				if bodyLine[f.Node] {
+					cur = bodyCol
+				}
+			}
+		}
+		if df, ok := frag.(*decorationFragment); ok {
+			switch df.Name {
+			case "Start":
+				fd.startIndents[df.Node] = cur
+			case "End":
+				fd.endIndents[df.Node] = cur
+			}
+		}
+	}
+
+	var out dst.Node
+	var err error
+	panicked := vfExpectPanic(func() {
+		fd.link()
+		out, err = fd.decorateNode(nil, "", "", "", an)
+	})
+	vfAssert(!panicked && err == nil, "decorate-ok")
+	if panicked || err != nil {
+		return
+	}
+	vfReach("decorated")
+	delems := make([]dst.Node, len(elems))
+	for k, e := range elems {
+		delems[k] = fd.Dst.Nodes[r0.Ast.Nodes[e]]
+	}
+	holds := func(n dst.Node, text string) int {
+		cnt := 0
+		dst.Inspect(n, func(x dst.Node) bool {
+			if x == nil {
+				return true
+			}
+			_, _, pts := dstutil.Decorations(x)
+			for _, p := range pts {
+				for _, s := range p.Decs {
+					if s == text {
+						cnt++
+					}
+				}
+			}
+			return true
+		})
+		return cnt
+	}
+	for k, d := range delems {
+		if hang[k] != "" {
+			vfAssert(holds(d, hang[k]) == 1, "hanging-comment-stored-in-its-own-clause")
+			for j, o := range delems {
+				if j != k {
+					vfAssert(holds(o, hang[k]) == 0, "hanging-comment-not-stored-in-another-clause")
+				}
+			}
+		}
+		if above[k] != "" {
+			found := false
+			for _, s := range d.Decorations().Start {
+				if s == above[k] {
+					found = true
+				}
+			}
+			vfAssert(found, "above-comments-in-own-start")
+		}
+		if k > 0 && (k == 1 || vfTier() > 0) {
+			sep := d.Decorations().Before == dst.EmptyLine || delems[k-1].Decorations().After == dst.EmptyLine
+			vfAssert(sep == blank[k], "blank-line-is-spacing-of-the-adjacent-elements")
+		}
+	}
+
+	// edit, restore, locate
+	var dblock *dst.BlockStmt
+	switch o := out.(type) {
+	case *dst.SwitchStmt:
+		dblock = o.Body
+	case *dst.SelectStmt:
+		dblock = o.Body
+	}
+	order := []int{0, 1, 2}
+	switch vfChoice("edit", 5) {
+	case 1:
+		order = []int{1, 0, 2}
+	case 2:
+		order = []int{0, 2}
+	case 3:
+		order = []int{2, 0, 1}
+	case 4:
+		order = []int{0, 1, 2, 0}
+	}
+	var ns []dst.Node
+	used := map[int]bool{}
+	dblock.List = nil
+	for _, k := range order {
+		n := delems[k]
+		if used[k] {
+			n = dst.Clone(n)
+		}
+		used[k] = true
+		ns = append(ns, n)
+		dblock.List = append(dblock.List, n.(dst.Stmt))
+	}
+	r := vfRestorerMid()
+	mark, c0 := len(r.lines), len(r.comments)
+	ra := r.restoreNode(out, "", "", "", false)
+	var got []*ast.Comment
+	for i := c0; i < len(r.comments); i++ {
+		got = append(got, r.comments[i].List...)
+	}
+	ci := 0
+	var closing token.Pos
+	switch x := ra.(type) {
+	case *ast.SwitchStmt:
+		closing = x.Body.Rbrace
+	case *ast.SelectStmt:
+		closing = x.Body.Rbrace
+	}
+	for pos, k := range order {
+		ae := r.Ast.Nodes[ns[pos]]
+		first := vfFirstTokenPos(ae, 0)
+		lastEnd := vfLastTokenEnd(ae, 0)
+		next := closing
+		if pos+1 < len(order) {
+			next = vfFirstTokenPos(r.Ast.Nodes[ns[pos+1]], 0)
+		}
+		if a := above[k]; a != "" {
+			vfAssert(ci < len(got), "edit/comment-rendered")
+			if ci >= len(got) {
+				return
+			}
+			vfAssert(got[ci].Text == a, "edit/above-comment-travels-with-element")
+			vfAssert(got[ci].Slash+token.Pos(len(a)) <= first, "edit/above-comment-before-its-element")
+			vfAssert(vfBreaks(r, mark, got[ci].Slash+token.Pos(len(a)), first) == 1, "edit/above-comment-directly-above")
+			ci++
+		}
+		if h := hang[k]; h != "" {
+			vfAssert(ci < len(got), "edit/comment-rendered")
+			if ci >= len(got) {
+				return
+			}
+			vfAssert(got[ci].Text == h, "edit/hanging-comment-travels-with-its-clause")
+			vfAssert(got[ci].Slash >= lastEnd, "edit/hanging-comment-after-its-clause")
+			vfAssert(got[ci].Slash+token.Pos(len(h)) <= next, "edit/hanging-comment-before-the-next-clause")
+			vfAssert(vfBreaks(r, mark, lastEnd, got[ci].Slash) >= 1, "edit/hanging-comment-on-its-own-line")
+			vfAssert(vfBreaks(r, mark, got[ci].Slash+token.Pos(len(h)), next) >= 1, "edit/hanging-comment-on-its-own-line")
+			ci++
+		}
+	}
+	vfAssert(ci == len(got), "edit/no-comment-lost-or-duplicated")
+}
+
+// ---- C02 L4: a deleted element takes its comments with it, also when objects still refer to it ---------
+//
+// With Restorer.Extras the restorer also restores nodes that are reachable only through Object.Decl /
+// Object.Data (e.g. a deleted declaration whose object is still in the file scope, or a deleted `x := 1`
+// whose variable is used later). Those nodes are not part of the file: what is printed (comments, line
+// table, file size) must be what a restorer without Extras produces, and hold no comment of the deleted
+// element.
+func VerifC02DeleteExtras() {
+	cm := func(tag, dflt string) string { return vfOpaque(tag, dflt) }
+	var f *dst.File
+	var deleted []string
+	var kept []string
+	switch vfChoice("shape", 2) {
+	case 0: // top-level declarations, objects in the file scope
+		sc := dst.NewScope(nil)
+		var decls []dst.Decl
+		for k, p := range []string{"a", "b", "c"} {
+			name := &dst.Ident{Name: p}
+			fd := &dst.FuncDecl{Name: name, Type: &dst.FuncType{Func: true, Params: &dst.FieldList{Opening: true, Closing: true}}, Body: &dst.BlockStmt{}}
+			fd.Decs.Start.Append(cm("doc"+p, "// doc "+p))
+			fd.Decs.End.Append(cm("trail"+p, "// trail "+p))
+			fd.Decs.Before, fd.Decs.After = dst.EmptyLine, dst.EmptyLine
+			obj := &dst.Object{Kind: dst.Fun, Name: p, Decl: fd}
+			name.Obj = obj
+			sc.Insert(obj)
+			decls = append(decls, fd)
+			_ = k
+		}
+		del := vfChoice("delete", 3)
+		f = &dst.File{Name: &dst.Ident{Name: "p"}, Scope: sc}
+		for k, d := range decls {
+			texts := []string{d.Decorations().Start[0], d.Decorations().End[0]}
+			if k == del {
+				deleted = append(deleted, texts...)
+				continue
+			}
+			kept = append(kept, texts...)
+			f.Decls = append(f.Decls, d)
+		}
+	default: // a local short variable declaration whose variable is used by a later statement
+		xDef := &dst.Ident{Name: "x"}
+		s1 := &dst.AssignStmt{Lhs: []dst.Expr{xDef}, Tok: token.DEFINE, Rhs: []dst.Expr{&dst.BasicLit{Kind: token.INT, Value: "1"}}}
+		obj := &dst.Object{Kind: dst.Var, Name: "x", Decl: s1}
+		xDef.Obj = obj
+		s1.Decs.Start.Append(cm("aboutx", "// about x"))
+		s1.Decs.End.Append(cm("trailx", "// x is one"))
+		s1.Decs.Before, s1.Decs.After = dst.NewLine, dst.NewLine
+		xUse := &dst.Ident{Name: "x", Obj: obj}
+		s2 := &dst.ExprStmt{X: &dst.CallExpr{Fun: &dst.Ident{Name: "g"}, Args: []dst.Expr{xUse}}}
+		s2.Decs.Start.Append(cm("abouty", "// about y"))
+		s2.Decs.End.Append(cm("traily", "// y uses x"))
+		s2.Decs.Before, s2.Decs.After = dst.NewLine, dst.NewLine
+		fn := &dst.FuncDecl{Name: &dst.Ident{Name: "f"}, Type: &dst.FuncType{Func: true, Params: &dst.FieldList{Opening: true, Closing: true}}, Body: &dst.BlockStmt{List: []dst.Stmt{s2}}}
+		f = &dst.File{Name: &dst.Ident{Name: "p"}, Decls: []dst.Decl{fn}}
+		deleted = []string{s1.Decs.Start[0], s1.Decs.End[0]}
+		kept = []string{s2.Decs.Start[0], s2.Decs.End[0]}
+	}
+	plain := NewRestorer()
+	af0, err0 := plain.RestoreFile(f)
+	ext := NewRestorer()
+	ext.Extras = true
+	af1, err1 := ext.RestoreFile(f)
+	vfAssert(err0 == nil && err1 == nil, "restore-ok")
+	if err0 != nil || err1 != nil {
+		return
+	}
+	vfReach("restored")
+	var got []string
+	for _, cg := range af1.Comments {
+		for _, c := range cg.List {
+			got = append(got, c.Text)
+		}
+	}
+	vfAssert(len(got) == len(kept), "deleted-element-takes-its-comments-with-it")
+	for i := range got {
+		if i < len(kept) {
+			vfAssert(got[i] == kept[i], "remaining-comments-in-order")
+		}
+	}
+	_ = deleted
+	vfAssert(vfDeepEqual(af0.Comments, af1.Comments), "extras-does-not-change-what-is-printed/comments")
+	tf0, tf1 := plain.Fset.File(af0.Package), ext.Fset.File(af1.Package)
+	vfAssert(tf0 != nil && tf1 != nil, "file-registered")
+	if tf0 == nil || tf1 == nil {
+		return
+	}
+	vfAssert(tf0.Size() == tf1.Size(), "extras-does-not-change-what-is-printed/size")
+	vfAssert(tf0.LineCount() == tf1.LineCount(), "extras-does-not-change-what-is-printed/lines")
+	for i := 1; i <= tf0.LineCount() && i <= tf1.LineCount(); i++ {
+		vfAssert(tf0.LineStart(i) == tf1.LineStart(i), "extras-does-not-change-what-is-printed/lines")
+	}
+}
